@@ -1,6 +1,6 @@
-(** C09 - property theorems (statements only; proofs are in C09/Proofs.v). *)
+(** C09 - property theorems (statements only; proofs are in C09/Proofs.v and C09/Cost.v). *)
 From Coq Require Import List NArith Reals.
-From LinfaVerif Require Import Common.Num Common.NdSum C09.Model C09.Proofs.
+From LinfaVerif Require Import Common.Num Common.NdSum C09.Model C09.Proofs C09.Cost.
 Import ListNotations.
 Local Open Scope R_scope.
 
@@ -47,3 +47,77 @@ Theorem restarts_never_increase_inertia : forall m tol fuel inits i X r r',
   restarts R_ops m tol fuel (inits ++ [i]) X = Some r' ->
   r_inertia r' <= r_inertia r.
 Proof. exact restarts_noninc. Qed.
+
+(** one Lloyd step (re-assignment to the closest centroid, then the centroid update
+    (sum of the cluster's points + old centroid) / (count + 1)) never increases the L2 cost, i.e. the
+    sum over the observations of the squared distance to the closest centroid *)
+Theorem step_cost_noninc : forall (cs X : list (list R)) (d : nat),
+  cs <> [] -> Forall (fun x => length x = d) X -> Forall (fun c => length c = d) cs ->
+  cost R_ops L2 (step R_ops L2 cs X) X <= cost R_ops L2 cs X.
+Proof. exact step_cost_noninc_R. Qed.
+
+(** the hypotheses are satisfiable and the decrease can be strict: centroids 0, 10 and data 1, 2, 9 *)
+Example step_cost_noninc_instance :
+  ([[0]; [10]] : list (list R)) <> [] /\
+  Forall (fun x => length x = 1%nat) [[1]; [2]; [9]] /\
+  Forall (fun c => length c = 1%nat) [[0]; [10]] /\
+  cost R_ops L2 (step R_ops L2 [[0]; [10]] [[1]; [2]; [9]]) [[1]; [2]; [9]] = 5 / 4 /\
+  cost R_ops L2 [[0]; [10]] [[1]; [2]; [9]] = 6.
+Proof.
+  destruct ex_hypotheses as [H1 [_ [H2 [H3 _]]]].
+  exact (conj H1 (conj H2 (conj H3 (conj ex_cost_after ex_cost_before)))).
+Qed.
+
+(** the whole loop (any tolerance, any iteration budget, early stop included) never ends with a
+    higher cost than it started with *)
+Theorem lloyd_cost_noninc : forall (tol : R) (fuel : nat) (cs X : list (list R)) (d : nat),
+  cs <> [] -> Forall (fun x => length x = d) X -> Forall (fun c => length c = d) cs ->
+  cost R_ops L2 (lloyd R_ops L2 tol fuel cs X) X <= cost R_ops L2 cs X.
+Proof. intros tol fuel cs X d H1 H2 H3. exact (lloyd_cost_noninc_R tol fuel X d H2 cs H1 H3). Qed.
+
+(** from a fixed initialisation and tolerance, a larger iteration budget never gives a higher cost *)
+Theorem lloyd_cost_monotone_in_budget : forall (tol : R) (m m' : nat) (cs X : list (list R)) (d : nat),
+  (m <= m')%nat ->
+  cs <> [] -> Forall (fun x => length x = d) X -> Forall (fun c => length c = d) cs ->
+  cost R_ops L2 (lloyd R_ops L2 tol m' cs X) X <= cost R_ops L2 (lloyd R_ops L2 tol m cs X) X.
+Proof. intros tol m m' cs X d Hm H1 H2 H3. exact (lloyd_budget_R tol X d H2 m m' cs Hm H1 H3). Qed.
+
+(** bounding box, one step (every metric): if coordinate t of every observation and of every previous
+    centroid lies in [lo_t, hi_t], so does coordinate t of every updated centroid *)
+Theorem centroids_in_bbox : forall (m : metric) (cs X : list (list R)) (d : nat) (lo hi : list R),
+  X <> [] -> Forall (fun x => length x = d) X -> Forall (fun c => length c = d) cs ->
+  (forall x t, In x X -> (t < d)%nat -> nth t lo 0 <= nth t x 0 <= nth t hi 0) ->
+  (forall c t, In c cs -> (t < d)%nat -> nth t lo 0 <= nth t c 0 <= nth t hi 0) ->
+  forall c' t, In c' (step R_ops m cs X) -> (t < d)%nat -> nth t lo 0 <= nth t c' 0 <= nth t hi 0.
+Proof. exact step_in_bbox_R. Qed.
+
+(** ... hence for the centroids at the end of the loop ... *)
+Theorem lloyd_centroids_in_bbox : forall (m : metric) (tol : R) (fuel : nat) (cs X : list (list R))
+    (d : nat) (lo hi : list R),
+  X <> [] -> Forall (fun x => length x = d) X -> Forall (fun c => length c = d) cs ->
+  (forall x t, In x X -> (t < d)%nat -> nth t lo 0 <= nth t x 0 <= nth t hi 0) ->
+  (forall c t, In c cs -> (t < d)%nat -> nth t lo 0 <= nth t c 0 <= nth t hi 0) ->
+  forall c' t, In c' (lloyd R_ops m tol fuel cs X) -> (t < d)%nat ->
+    nth t lo 0 <= nth t c' 0 <= nth t hi 0.
+Proof. exact lloyd_in_bbox_R. Qed.
+
+(** ... and for the centroids `fit` returns, whichever restart wins: inside the box of the data and
+    of all initial centroids (inside the data's box when initialised from the data) *)
+Theorem fit_centroids_in_bbox : forall (m : metric) (tol : R) (fuel k : nat)
+    (inits : list (list (list R))) (X : list (list R)) (d : nat) (lo hi : list R) (f : fitted),
+  X <> [] -> Forall (fun x => length x = d) X ->
+  (forall i, In i inits -> Forall (fun c => length c = d) i) ->
+  (forall x t, In x X -> (t < d)%nat -> nth t lo 0 <= nth t x 0 <= nth t hi 0) ->
+  (forall i c t, In i inits -> In c i -> (t < d)%nat -> nth t lo 0 <= nth t c 0 <= nth t hi 0) ->
+  fit R_ops m tol fuel k inits X = Some f ->
+  forall c t, In c (f_centroids f) -> (t < d)%nat -> nth t lo 0 <= nth t c 0 <= nth t hi 0.
+Proof. exact fit_in_bbox_R. Qed.
+
+(** the box hypotheses are satisfiable (data 1, 2, 9; centroids 0, 10; box [0, 10]) and the updated
+    centroids of that instance are 1 and 19/2 *)
+Example centroids_in_bbox_instance :
+  Forall (in_box 1 [0] [10]) [[1]; [2]; [9]] /\ Forall (in_box 1 [0] [10]) [[0]; [10]] /\
+  step R_ops L2 [[0]; [10]] [[1]; [2]; [9]] = [[1]; [19 / 2]].
+Proof.
+  destruct ex_hypotheses as [_ [_ [_ [_ [H1 H2]]]]]. exact (conj H1 (conj H2 ex_step)).
+Qed.
